@@ -2698,29 +2698,33 @@ impl Term<Name> {
                     .map(|(_, term)| term.pierce_no_inlines_ref())
                     .collect_vec();
                 if applies.len() == func.arity() && func.is_error_safe(&args) {
-                    changed = true;
-                    let applied_term =
-                        applies
-                            .into_iter()
-                            .fold(Term::Builtin(*func), |acc, (arg_id, arg)| {
-                                context.inlined_apply_ids.push(arg_id);
-                                acc.apply(arg.pierce_no_inlines_ref().clone())
-                            });
+                    let applied_term = applies
+                        .iter()
+                        .fold(Term::Builtin(*func), |acc, (_, arg)| {
+                            acc.apply(arg.pierce_no_inlines_ref().clone())
+                        });
 
-                    // The check above is to make sure the program is error safe
-                    let eval_term: Term<Name> = Program {
+                    // `is_error_safe` is only an estimate: fold when the application
+                    // really evaluates to a value, otherwise leave it in place so that
+                    // it fails (or is never reached) at run time.
+                    let evaluated: Option<Term<Name>> = Program {
                         version: (1, 0, 0),
                         term: applied_term,
                     }
                     .to_named_debruijn()
-                    .unwrap()
-                    .eval(ExBudget::default())
-                    .result()
-                    .unwrap()
-                    .try_into()
-                    .unwrap();
+                    .ok()
+                    .and_then(|program| program.eval(ExBudget::default()).result().ok())
+                    .and_then(|term| term.try_into().ok());
 
-                    *self = eval_term;
+                    if let Some(eval_term) = evaluated {
+                        changed = true;
+
+                        for (arg_id, _) in applies {
+                            context.inlined_apply_ids.push(arg_id);
+                        }
+
+                        *self = eval_term;
+                    }
                 }
             }
             Term::Constr { .. } => todo!(),
